@@ -5,6 +5,10 @@ HERE = os.path.dirname(os.path.dirname(os.path.abspath(__file__)))
 props = [json.loads(l) for l in open(os.path.join(HERE, "properties.jsonl"))]
 
 CHECKS = {
+ "C01": dict(
+   text="Spec/TextSpec.v is the documented semantics of text strings (ascii, wide, nocase, fullword, xor ranges). Theorems: the executable reference reports every offset once, in ascending order, exactly where the string occurs (text_matches_exact, all strings, modifiers and buffers); for ANY atom set that passes the coverage certificate every occurrence in every buffer is proposed to the verifier by an atom hit (candidates_complete: 'whichever substring the engine picks'). Tie: the certificate cover_ok is evaluated by the extracted model on the atoms decoded from the saved image of every generated rule (Model/Image.v decodes strings, transition table, match lists), and the real scanner's match lists are compared with the extracted reference on generated strings x buffers (planted variants at 0/end/overlapping, near misses, alnum/NUL neighbours, keys outside the range).",
+   note="Trusted: Coq kernel, extraction, C harness h_scan, layout/constants/character-table translators. Not proved (correspondence only): the verifier accepts exactly the occurrences among the candidates; the stored automaton reports exactly the atom hits. base64/base64wide strings are not covered yet.",
+   technique="Coq proof (spec + atom-coverage certificate) + image decoding + scan correspondence", ref="DESIGN.md 4 C01"),
  "C17": dict(
    text="Theorems over the Gallina model of yr_arena_save_stream / yr_arena_load_stream / yr_rules_load_stream: every strict prefix of every well-formed saved image is rejected (truncated_rejected: all arenas, all cut points), the full image round-trips, accepted files have the right magic/version/section count. Tie: the extracted model and the real loader run on every prefix of generated images, all single-field header/table corruptions and malformed files (exact rc and re-saved bytes compared), and wf_arena is checked on every image the real compiler writes.",
    note="Trusted: Coq kernel, extraction (ExtrOcamlBasic), C harness h_load/h_scan, constants/layout translator; malloc assumed to succeed; rejection of corrupted offset/size table fields is an exhaustive sweep, not a theorem.",
